@@ -17,13 +17,16 @@ ID = "C32"
 LEVEL = "exploration"
 RULE = (
     "one run = a generated project (several dialects via nested configs, jinja/placeholder/raw templater, noqa, a "
-    "parse-error file, a template-error file, multi-CTE files) and a history of 5-12 operations executed in ONE "
+    "parse-error file, a template-error file, multi-CTE files, SQL of sqlfluff's own rule test cases with their dialect as an "
+    "in-file directive, and in 30 % of runs 'latch bait': two files that share the rule configuration but differ in a "
+    "per-file fact rules look at - dialect, ignore_templated_areas) and a history of 5-12 operations executed in ONE "
     "long-lived node: lint_paths over subsets (serial / SimPool), CLI lint in json/yaml/human/github-annotation "
     "formats, sqlfluff.lint(str), lint_string, CLI parse, CLI render, interleaved with environment events (listing "
     "reshuffle, clock jump, config-cache eviction, restart). Read-only: during every op the disk journal holds no "
     "mutating op under the world root and (bytes, mode, inode, mtime_ns) of every file are unchanged. Repeatable: "
     "each op's canonical result equals the result of the SAME op executed alone in a fresh (cold-zygote) process "
-    "with a different PYTHONHASHSEED, and equals every other execution of it in the history. evaluations = ops "
+    "with a different PYTHONHASHSEED, equals every other execution of it in the history, and every file's violations "
+    "inside a multi-file lint (API records, CLI json/yaml) equal those of that file linted ALONE in a fresh process. evaluations = ops "
     "executed in histories. non-trivial iff the op was preceded in its node by >= 1 op touching a different "
     "file set / entry point; distinct = distinct (world digest, op digest, history-prefix digest)."
 )
@@ -48,7 +51,17 @@ def gen_history(rng: Rng, world: dict) -> list[dict]:
     ops: list[dict] = []
     n = rng.randint(5, 11)
     distinct: list[dict] = []
-    for _ in range(n):
+    whole_at = rng.randrange(n) if rng.chance(0.6) else -1
+    for step in range(n):
+        if step == whole_at:
+            # the commonest real history: every file of the project through ONE process and ONE Linter
+            if rng.chance(0.6):
+                op = {"op": "lint", "paths": ["."], "processes": 1, "shared_linter": rng.chance(0.5)}
+            else:
+                op = {"op": "cli_lint", "paths": ["."], "format": rng.choice(["json", "yaml"]), "processes": 1}
+            ops.append(op)
+            distinct.append(op)
+            continue
         kind = rng.weighted([("lint", 5), ("cli_lint", 3), ("api_lint", 2), ("cli_parse", 1), ("cli_render", 1),
                              ("repeat", 3), ("listing", 1), ("clock", 1), ("evict", 1), ("restart", 1)])
         if kind == "repeat" and distinct:
@@ -176,7 +189,7 @@ def run_one(ctx: Any, seed: int, tier: str, replay: Optional[dict] = None) -> di
         hs_h, hs_f = replay["hashseeds"]
         warm = replay.get("warm", WARM)
     else:
-        world = gen_fix_world(rng.fork("world"), {"kinds": KINDS + ["cte_multi", "cte_multi", "clean"], "min_files": 3, "max_files": 7,
+        world = gen_fix_world(rng.fork("world"), {"kinds": KINDS + ["cte_multi", "cte_multi", "clean", "rulecase", "rulecase", "rulecase"], "min_files": 3, "max_files": 7, "bait": 0.3,
                                                    "size_limits": rng.fork("f").chance(0.2)})
         history = gen_history(rng.fork("history"), world)
         pool = ctx.hashseeds(3)
@@ -187,6 +200,7 @@ def run_one(ctx: Any, seed: int, tier: str, replay: Optional[dict] = None) -> di
     cl = ctx.cluster
     zh = cl.zygote(hs_h, warm)
     zf = cl.zygote(hs_f, "")  # fresh side is always a cold process
+    za = cl.zygote(hs_f, WARM)  # single-file "alone" lints: fresh fork, imports pre-done
     root = cl.new_root("C32-%d" % seed)
     initial = world_tree(world)
     wdig = sha(json.dumps(world["files"], sort_keys=True))[:10]
@@ -291,24 +305,38 @@ def run_one(ctx: Any, seed: int, tier: str, replay: Optional[dict] = None) -> di
                     sig = "F5:LT07-reports-hash-order-dependent-cte-bracket"
                 add("repeatable-fresh", sig, "op #%d %s after history %s differs from the same op in a fresh process (hash seeds %d vs %d): %s" % (
                     opi, op, prefix[-6:], hs_h, hs_f, first_diff(c, fc)))
-            # ---- repeatable: one file of a multi-file lint vs the same file linted alone, fresh ----
-            if k == "lint" and "records" in out and len(out["records"]) > 1:
-                recs = sorted(out["records"], key=lambda r_: r_["filepath"])
-                pickf = recs[(seed + opi) % len(recs)]
-                akey = "alone:" + pickf["filepath"]
-                if akey not in fresh_cache:
-                    fn = zf.node({"name": "a%d" % opi, "root": root, "cwd": cwd, "seed": seed + 2000 + opi, "knobs": {"journal_reads": False, "listing": "sorted"}})
-                    try:
-                        ao = fn.call("lint_paths", paths=[pickf["filepath"]], processes=1)
-                    finally:
-                        fn.close()
-                    fresh_cache[akey] = [r_["violations"] for r_ in ao.get("records", []) if r_["filepath"] == pickf["filepath"]]
-                    probes["fresh_single_file_lints"] += 1
-                alone = fresh_cache[akey]
-                if alone and alone[0] != pickf["violations"]:
-                    add("repeatable-alone", "C32:file-among-others-vs-alone", "op #%d %s: violations of %s inside this multi-file lint differ from the same file linted alone in a fresh process: %s" % (
-                        opi, op, pickf["filepath"], first_diff(pickf["violations"], alone[0])))
-                probes["file_among_others_vs_alone_compared"] += 1
+            # ---- repeatable: each file of a multi-file lint vs the same file linted alone, fresh ----
+            multi = None
+            if k == "lint" and "records" in out:
+                multi = out["records"]
+            elif k == "cli_lint" and op["format"] in ("json", "yaml") and isinstance(c.get("stdout"), list):
+                multi = [r_ for r_ in c["stdout"] if isinstance(r_, dict) and "filepath" in r_ and "violations" in r_]
+            if multi is not None and len(multi) > 1:
+                recs = sorted(multi, key=lambda r_: r_["filepath"])
+                start = (seed + opi) % len(recs)
+                todo = [recs[(start + j) % len(recs)] for j in range(len(recs))]
+                fresh_budget = 3  # new single-file processes per op (results are cached per file for the run)
+                for pickf in todo:
+                    akey = "alone:" + pickf["filepath"]
+                    if akey not in fresh_cache:
+                        if fresh_budget <= 0:
+                            continue
+                        fresh_budget -= 1
+                        fn = za.node({"name": "a%d" % opi, "root": root, "cwd": cwd, "seed": seed + 2000 + opi, "knobs": {"journal_reads": False, "listing": "sorted"}})
+                        try:
+                            ao = fn.call("lint_paths", paths=[pickf["filepath"]], processes=1)
+                        finally:
+                            fn.close()
+                        # (through JSON so API records and CLI json/yaml output compare like for like)
+                        fresh_cache[akey] = json.loads(json.dumps([r_["violations"] for r_ in ao.get("records", []) if r_["filepath"] == pickf["filepath"]]))
+                        probes["fresh_single_file_lints"] += 1
+                    alone = fresh_cache[akey]
+                    if not alone:
+                        probes["alone_record_missing"] += 1
+                    if alone and alone[0] != json.loads(json.dumps(pickf["violations"])):
+                        add("repeatable-alone", "C32:file-among-others-vs-alone", "op #%d %s: violations of %s inside this multi-file lint differ from the same file linted alone in a fresh process: %s" % (
+                            opi, op, pickf["filepath"], first_diff(pickf["violations"], alone[0])))
+                    probes["file_among_others_vs_alone_compared"] += 1
             # ---- repeatable: vs earlier executions in the history ----
             for (pi, pc) in hist_results.get(opkey, []):
                 if pc != c:
